@@ -238,6 +238,7 @@ def run(ck, F, E):
     # ---- (5b) a control statement that fails with its specified error has not touched the continuation before failing
     fail_readonly(ck, F, E)
     stacks_dropped_only_with_breakpoint(ck, F, E)
+    cont_arm(ck, F)
 
     # ---- breaking at an INPUT prompt and CONTinuing re-executes the INPUT statement: it must do nothing until a reply exists
     from props.C08 import await_rule
@@ -342,6 +343,25 @@ def fail_readonly(ck, F, E):
                        "breakpoint changes what CONT resumes" % (body.path, variant, "; ".join(sorted(set(bad)))), sp)
     ck.floor("C07.control-statement failures constructed in Program", len(seen_variants - {"propagated", "Err"}), len(CONTROL_FAILURES))
     ck.floor("C07.failure-atomic Program methods found", len(n_atomic), len(FAILURE_ATOMIC))
+
+
+def cont_arm(ck, F):
+    """CONT = restore the breakpoint's location, then step: in the command dispatcher, run_next_statement is reached through the
+    success arm of continue_from_breakpoint (and only there is continue_from_breakpoint called)."""
+    from lib import on_ok_arm
+    mp = get_fn(ck, F, "Interpreter::maybe_process_command")
+    if mp is None:
+        return
+    c1 = mp.calls_to("Program::continue_from_breakpoint")
+    c2 = mp.calls_to("Interpreter::run_next_statement")
+    ok = len(c1) == 1 and any(on_ok_arm(mp, c1[0], x.bb) for x in c2)
+    ck.require(ok, "C07:CONT:restore-then-step", "capture / restore",
+               "the CONT command calls continue_from_breakpoint and, on its success, run_next_statement",
+               "the CONT arm of maybe_process_command no longer restores the breakpoint and then steps (%d restore call(s), %d step "
+               "call(s)): a break followed by CONT does not resume the program" % (len(c1), len(c2)), mp.span)
+    others = sorted({b.path for b, _ in callers_of(F, "Program::continue_from_breakpoint")} - {mp.path})
+    ck.require(not others, "C07:CONT:only-the-command", "capture / restore", "continue_from_breakpoint is called by the CONT command only",
+               "continue_from_breakpoint is also called from %s" % others, mp.span, nontrivial=False)
 
 
 def stacks_dropped_only_with_breakpoint(ck, F, E):
